@@ -773,7 +773,6 @@ def rule_e8(repo, col):
 
 # E9 reasoned exceptions: (module, function, subscript) -> why the key is present
 E9_TABLE = {
-    ("problog.formula", "LogicFormula.propagate", "current[abs(at)]"): "guarded by `at in current`; `at` ranges over sets of abs() ids, so abs(at) == at (and nothing is ever added to atoms_in_rules: the loop is dead)",
     ("problog.ground_yap", "read_grounding", "num2index[names[q]]"): "external yap grounder (not shipped); the reader registers every name in num2index before the queries are read",
     ("problog.sdd_formula_explicit", "build_explicit_from_logicdag", "node_to_indicator[mapped_line]"): "PySDD-only module; the indicator of a mapped line is created in the branch above for every line that reaches this statement",
 }
@@ -819,6 +818,23 @@ def rule_e9(repo, col):
                 if ("%s in %s" % (key, d), True) in st:
                     col.ok("E9", f.module, sub, "membership established: %s in %s" % (key, d), function=f.qualname)
                     continue
+                # d[abs(k)] under the fact `k in d` where k ranges over a local collection that only ever receives abs(...) values: abs(k) == k
+                if isinstance(sub.slice, ast.Call) and dotted(sub.slice.func) == "abs" and len(sub.slice.args) == 1 and isinstance(sub.slice.args[0], ast.Name):
+                    kv = sub.slice.args[0].id
+                    if ("%s in %s" % (kv, d), True) in st:
+                        src_loops = [lp for lp in walk_no_nested(f.node) if isinstance(lp, ast.For) and isinstance(lp.target, ast.Name) and lp.target.id == kv
+                                     and any(y is sub for y in ast.walk(lp))]
+                        nonneg = False
+                        if len(src_loops) == 1 and isinstance(src_loops[0].iter, ast.Subscript) and isinstance(src_loops[0].iter.value, ast.Name):
+                            coll = src_loops[0].iter.value.id
+                            adds = [c_ for c_ in walk_no_nested(f.node) if isinstance(c_, ast.Call) and isinstance(c_.func, ast.Attribute) and c_.func.attr in ("add", "append", "update", "extend")
+                                    and isinstance(c_.func.value, ast.Subscript) and isinstance(c_.func.value.value, ast.Name) and c_.func.value.value.id == coll]
+                            stores = [a_ for a_ in walk_no_nested(f.node) if isinstance(a_, ast.Assign) and any(isinstance(t_, ast.Subscript) and isinstance(t_.value, ast.Name)
+                                      and t_.value.id == coll for t_ in a_.targets)]
+                            nonneg = not stores and all(c_.func.attr == "add" and len(c_.args) == 1 and isinstance(c_.args[0], ast.Call) and dotted(c_.args[0].func) == "abs" for c_ in adds)
+                        if nonneg:
+                            col.ok("E9", f.module, sub, "membership established: %s in %s, and %s ranges over a collection that only receives abs(..) values" % (kv, d, kv), function=f.qualname)
+                            continue
                 # comprehension guard: [.. d[k] .. for k in .. if k in d]
                 cur = parents.get(sub)
                 guarded = False
